@@ -88,7 +88,7 @@ def hist_corr(ctx, ents=None, mix=None, name="history-correspondence", nhist=Non
     return bad
 
 
-def fn_corr(ctx, ents=None, name="functional-correspondence", ncases=None, gen=None, sizes=(1, 2, 3, 5, 8, 13, 40), variant=None):
+def fn_corr(ctx, ents=None, name="functional-correspondence", ncases=None, gen=None, sizes=(1, 2, 3, 5, 8, 13, 40), variant=None, suffix=""):
     """Functional form on generated inputs vs the Coq functional model (algo) and, where the entry
     names one, the Coq spec model.  gen(rng, e, cfg) may override the batch generator."""
     s = ctx.stream(name)
@@ -131,8 +131,8 @@ def fn_corr(ctx, ents=None, name="functional-correspondence", ncases=None, gen=N
             d = close(mo, last_algo, 0) if not (isinstance(mo, T) and isinstance(last_algo, T) and mo.tag == last_algo.tag) else None
             if d and ("spec:" + e.name) not in bad:
                 bad["spec:" + e.name] = {"function": e.name, "cfg": cfg, "batch": b, "algo_vs_spec": d}
-    sfx = f"[{variant}]" if variant else ""
-    if not variant:
+    sfx = (f"[{variant}]" if variant else "") + suffix
+    if not variant and not suffix:
         n, dis = crosscheck_in_coq(cases, outs, ctx.prop + "f", limit=ctx.n(40, 200))
         ctx.oblige(f"tie:extraction-vs-vm_compute:{name}", dis == 0,
                    detail=f"{dis} of {n} sampled cases differ between extracted OCaml and in-Coq vm_compute")
@@ -146,7 +146,7 @@ def fn_corr(ctx, ents=None, name="functional-correspondence", ncases=None, gen=N
                                                    "observed": m["disagreement"], "presentation": variant or "base",
                                                    "broken": f"tie:fn:{e.name}{sfx}"},
                           finding_id=core.match_finding(ctx.prop, e.name, str(m["disagreement"])))
-        if getattr(e, "spec_model", None) and not variant:
+        if getattr(e, "spec_model", None) and not variant and not suffix:
             m = bad.get("spec:" + e.name)
             ctx.oblige(f"model:algo=spec:{e.name}", m is None, detail=repr(core.canon(m))[:1500] if m else "")
     return bad
@@ -170,3 +170,43 @@ def presentation_variants(ctx, fn_ents=None, hist_ents=None, modes=None, ncases=
         rej = variation.STATS.get("rejected:" + mode, 0) - before.get("rejected:" + mode, 0)
         ctx.notes.append(f"presentation {mode}: {done} tensor arguments re-presented, {rej} calls refused by the real code and repeated in the base presentation")
     return out
+
+
+WIDE_KEYS = ("num_classes", "num_labels", "num_tasks", "num_queries", "C")
+
+
+def wide_corr(ctx, ents, values=(129, 130, 257), ncases=None, sizes=(2, 5, 9)):
+    """More than 128 / 256 classes, labels, tasks or queries (blocked / chunked implementations take another path there):
+    the same functional correspondence on configurations whose slice count is 129, 130 or 257."""
+    import copy
+    wide = []
+    for e in ents:
+        if not (e.fn_model and e.has_functional):
+            continue
+        cfgs = e.configs(ctx.rng, ctx.quick)
+        keys = [k for k in WIDE_KEYS if any(isinstance(c.get(k), int) and not isinstance(c.get(k), bool) for c in cfgs)]
+        if not keys:
+            continue
+        key = keys[0]
+        small = min(c[key] for c in cfgs if isinstance(c.get(key), int))
+        base = [c for c in cfgs if c.get(key) == max(small, min(3, max(c2[key] for c2 in cfgs if isinstance(c2.get(key), int)))) and not c.get("implicit")]
+        good = []
+        for c in base:
+            for k in values:
+                cfg = {**c, key: k}
+                try:
+                    b = e.gen_batch(ctx.rng, cfg, 3)
+                    e.batch_val(cfg, b)
+                    e.functional(cfg, b)
+                    good.append(cfg)
+                except Exception:
+                    pass
+        if not good:
+            continue
+        w = copy.copy(e)
+        w.configs = (lambda rng, quick=True, good=good: list(good))
+        wide.append(w)
+    if wide:
+        fn_corr(ctx, ents=wide, name="functional-correspondence [129 / 130 / 257 classes, labels, tasks or queries]",
+                ncases=ncases or ctx.n(6, 36), sizes=sizes, suffix="[wide]")
+    ctx.notes.append("wide configurations: " + ", ".join(w.name for w in wide))
